@@ -105,7 +105,8 @@ def _rng(v):
 def byte(data, i):
     if isinstance(data, SBytes):
         return simp(_rng(data.at(i)))
-    return bytes(data[i:i + 1])[0]
+    b = bytes(data[i:i + 1]) if i >= 0 else b''
+    return b[0] if b else 0       # out of range natively: 0 (the in-range conjunct of the contract is then false)
 
 
 def be(data, off, n):
